@@ -447,6 +447,23 @@ def class_level_mutables(repo):
                         if isinstance(base, ast.Attribute) and isinstance(base.value, ast.Name) \
                                 and base.value.id in (recv, 'cls', cls.name) and base.attr in attrs:
                             muts.setdefault(base.attr, []).append((m.name, n.lineno))
+                # a class-level mutable handed out to callers (return cls.a / return self.a / yield ...): whoever gets it can change
+                # the one object every instance - every request, every application - shares
+                for m in [n for n in ast.walk(cls) if isinstance(n, (ast.FunctionDef, ast.AsyncFunctionDef))]:
+                    recv = m.args.args[0].arg if m.args.args else None
+                    for n in ast.walk(m):
+                        if isinstance(n, (ast.Return, ast.Yield)) and n.value is not None:
+                            vals = [n.value] + ([n.value.body, n.value.orelse] if isinstance(n.value, ast.IfExp) else [])
+                            for v in vals:
+                                if isinstance(v, ast.Attribute) and isinstance(v.value, ast.Name) and v.value.id in (recv, 'cls', cls.name) \
+                                        and v.attr in attrs and v.attr not in own:
+                                    ok = CLASS_ATTR_ALLOW.get((rel, cls.name, v.attr))
+                                    out.append({'name': f'escape.returned.{rel}:{cls.name}.{m.name}.{v.attr}',
+                                                'status': 'discharged' if ok else 'failed',
+                                                'detail': (f'allow-listed: {ok}' if ok else
+                                                           f'{m.name} (line {n.lineno}) hands out the class-level mutable {v.attr} (line {attrs[v.attr]}): '
+                                                           'one object shared by every instance, request and application; a caller that writes into it '
+                                                           'changes what all others get')})
                 for a, ln in sorted(attrs.items()):
                     n_attrs += 1
                     where = muts.get(a, [])
